@@ -28,9 +28,16 @@ def run(prop, tier, seed, ctx):
     n = 1500 if tier == "quick" else 30000
     texts = corpus_texts(seed, n)
     singles = shard_map("bind.verify", "text_chunk", [(t, (i % 3) * 4) for i, t in enumerate(texts)])
-    allt = hists + singles
+    from bind.verify import PROLOGUES, SECTION_BODIES
+    sect = shard_map("bind.verify", "section_chunk", [(p, b, k) for p in range(len(PROLOGUES)) for b in range(len(SECTION_BODIES)) for k in (1, 2)], chunk=10)
+    for t in sect:
+        if "environment_mismatch" in t["events"][0]:
+            raise MachineryError("sectioned offer: " + t["events"][0]["environment_mismatch"] + " for %r" % t["texts"][0])
+    if len(sect) < 40:
+        raise MachineryError("only %d sectioned offers were produced" % len(sect))
+    allt = hists + singles + sect
     ctx.cov["replayed_cases"] += len(allt)
-    acc, rej, tres = tlc.validate_traces("TraceVerify", "TraceVerify.cfg", [[{k: v for k, v in e.items() if k not in ("error", "environment_mismatch")} for e in t["events"]] for t in allt], timeout=1200)
+    acc, rej, tres = tlc.validate_traces("TraceVerify", "TraceVerify.cfg", [[{k: v for k, v in e.items() if k not in ("error", "environment_mismatch", "sectioned")} for e in t["events"]] for t in allt], timeout=1200)
     ctx.add_tlc(tres, "CallOk evaluated on %d recorded verify histories" % len(allt))
     ctx.cov["traces_validated_against_impl"] += len(allt)
     ctx.count(len(allt), ("text:" + t["texts"][-1] for t in allt if t["events"][-1]["cls"] != "ok"))
@@ -56,6 +63,12 @@ def replay(prop, rep):
     from engine.core import setup_repo_path
     setup_repo_path()
     r = rep["replay"]
+    if r["events"][-1].get("sectioned"):
+        whole = r["texts"][-1]
+        out = [t for t in B.section_chunk([(p, b, k) for p in range(len(B.PROLOGUES)) for b in range(len(B.SECTION_BODIES)) for k in (1, 2)], None) if t["texts"][0] == whole]
+        print(json.dumps(out, indent=1)[:1500])
+        e = out[0]["events"][0] if out else {}
+        return 1 if out and (e["raised"] or (e["cls"] not in ("ok", "blank") and e["fbline"] != e["line"] + e["offset"])) else 0
     out = B.text_chunk([(r["texts"][-1], r["events"][-1]["offset"])], None)
     print(json.dumps(out, indent=1)[:1500])
     return 1
